@@ -234,6 +234,9 @@ class VFSZip(VFS_Real):
     def _readlink(self, selector: str) -> str:
         return self._readlinkfspath(self._getfspathfinal(selector))
 
+    def isreal(self) -> bool:
+        return False
+
     def iswritable(self, selector: str) -> bool:
         return False
 
